@@ -248,6 +248,9 @@ impl Cfg {
                 _ => return Err(format!("unknown key {k}")),
             }
         }
+        if c.max_mtu != 0 && c.max_mtu < 1228 {
+            return Err(format!("max_mtu must be 0 (default) or >= 1228 (s2n-quic's minimum MTU incl. IP/UDP headers): {}", c.max_mtu));
+        }
         Ok(c)
     }
 
